@@ -272,7 +272,7 @@ def check_outdir(job):
             "cls": msgs[0].split(":")[0] if msgs else None}
 
 
-WRONG = {"bool": ["maybe", ["a"], 3], "str": [["l"], {"k": "v"}], "list": [{"k": "v"}, 5]}
+WRONG = {"bool": ["maybe", ["a"], 3, 1, 0], "str": [["l"], {"k": "v"}], "list": [{"k": "v"}, 5]}
 
 
 def check_wrong_type(job):
@@ -286,7 +286,8 @@ def check_wrong_type(job):
         st, status, exc = run_main(box, [], tree if src == "sfile" else {}, tree if src == "user" else None)
         if st is not None:
             got = get(st, sec, opt)
-            same = got == bad or (isinstance(got, (list, tuple)) and list(got) == bad) or str(got) == str(bad)
+            same = (type(got) is type(bad) and got == bad) or (isinstance(got, (list, tuple)) and isinstance(bad, list)
+                                                              and list(got) == bad)
             if not same:
                 msgs.append(f"wrong-type: {sec}.{opt} given {bad!r} in the {src} file is silently replaced by {got!r}")
     finally:
